@@ -119,7 +119,8 @@ type c16Case struct {
 	Machine  *sysgen.Machine `json:"machine"`
 	Nodes    []sysgen.Node   `json:"machine_nodes"`
 	NodesPer int             `json:"machine_nodes_per_die"`
-	Config   *c16Config      `json:"config,omitempty"` // nil: fidelity only
+	Config   *c16Config      `json:"config,omitempty"`      // nil: fidelity only
+	Prev     *c16Config      `json:"prev_config,omitempty"` // set: Setup(Prev) then Reconfigure(Config)
 }
 
 func c16NewCase(m *sysgen.Machine, cfg *c16Config) *c16Case {
@@ -1002,8 +1003,28 @@ func c16Setup(ctx *Ctx, cs *c16Case, mod *c16Model, sys sysfs.System, dir string
 	var serr error
 	t0 := time.Now()
 	pm, site := Guard(func() {
-		serr = backend.Setup(&policyapi.BackendOptions{System: sys, Cache: cch,
-			SendEvent: func(interface{}) error { return nil }, Config: tc})
+		if cs.Prev == nil {
+			serr = backend.Setup(&policyapi.BackendOptions{System: sys, Cache: cch,
+				SendEvent: func(interface{}) error { return nil }, Config: tc})
+			return
+		}
+		ptc := &tacfg.Config{PinCPU: true, PinMemory: true,
+			ReservedResources: tacfg.Constraints{tacfg.CPU: tacfg.Amount(cs.Prev.Reserved)}}
+		if cs.Prev.HasAvail {
+			ptc.AvailableResources = tacfg.Constraints{tacfg.CPU: tacfg.Amount("cpuset:" + sysgen.CPUList(cs.Prev.Avail))}
+		}
+		if perr := backend.Setup(&policyapi.BackendOptions{System: sys, Cache: cch,
+			SendEvent: func(interface{}) error { return nil }, Config: ptc}); perr != nil {
+			// the previous configuration is not usable on this machine: plain Setup with the one under test
+			ctx.Count("reconfigure_prev_rejected")
+			topologyaware.VerifResetGlobals()
+			backend = topologyaware.New()
+			serr = backend.Setup(&policyapi.BackendOptions{System: sys, Cache: cch,
+				SendEvent: func(interface{}) error { return nil }, Config: tc})
+			return
+		}
+		ctx.Count("setups_via_reconfigure")
+		serr = backend.Reconfigure(tc)
 	})
 	ctx.Add("time_setup_us", int(time.Since(t0).Microseconds()))
 	if pm != "" {
@@ -1362,6 +1383,9 @@ func c16RunMachine(ctx *Ctx, m *sysgen.Machine, idx int, fidelity bool, cfgs []*
 			ctx.Count("machines_" + f)
 		}
 	}
+	if m.LegacyNames {
+		ctx.Count("machines_legacy_attribute_names")
+	}
 	ctx.Add("cpus_total", len(m.CPUs))
 
 	var sys sysfs.System
@@ -1390,8 +1414,14 @@ func c16RunMachine(ctx *Ctx, m *sysgen.Machine, idx int, fidelity bool, cfgs []*
 			rep.bad("fidelity-panic", site, "accessor panicked: %s", pm)
 		}
 	}
-	for _, cfg := range cfgs {
-		c16Setup(ctx, c16NewCase(m, cfg), mod, sys, filepath.Join(root, "cache"))
+	for i, cfg := range cfgs {
+		cs := c16NewCase(m, cfg)
+		if i > 0 && i%2 == 1 {
+			// every other configuration is taken into use by Reconfigure() on a backend that was set up with the previous
+			// one: the tree must be the one of the configuration in effect, whatever was there before
+			cs.Prev = cfgs[i-1]
+		}
+		c16Setup(ctx, cs, mod, sys, filepath.Join(root, "cache"))
 	}
 }
 
